@@ -8,6 +8,8 @@
 
 package asn
 
+import "reflect"
+
 // ---- specification prelude -------------------------------------------------
 
 // verif_forall is interpreted by govc as a universal quantifier (it is not executable);
@@ -396,11 +398,21 @@ func specEncLen(s structEncoder, n int) int {
 //@ func parseFieldParameters [C16]
 //@   trusted
 
+// specHolds: the reflect.Value holds a T (what reflect guarantees when v.Type() is T's type descriptor;
+// stated as an environment assumption at the three type assertions of makeField)
+func specHolds[T any](v reflect.Value) bool {
+	_, ok := v.Interface().(T)
+	return ok
+}
+
 // ---- makeField (C04): marshalling never panics in the encoder's own code --------------------------------
 // reflect is opaque (its own panics are not modelled); recursive calls go through this contract: a nil
 // error comes with a non-nil encoder.
 //@ func makeField [C04]
 //@   ensures result1 == nil ==> result0 != nil
+//@   assume "berType.value = bitStringEncoder(": specHolds[BitString](v)
+//@   assume "berType.value = bytesEncoder(v.Interface().(OctetString))": specHolds[OctetString](v)
+//@   assume "berType.value = int64Encoder(v.Interface().(Enumerated))": specHolds[Enumerated](v)
 //@   linear s
 //@   loop 0: invariant 0 <= i && len(s) == structType.NumField()
 //@   loop 1: invariant 0 <= i && len(s) == v.Len()
